@@ -471,7 +471,7 @@ func (w *world) checkAll() []*violation {
 		lBytes, _ := classes(lPool, w.bytewise)
 		add(w.opGroupBy1(lCls))
 		add(w.known("C07-distinct-collation", strFam && clash, w.opDistinct1(lCls), func() *violation { return w.opDistinct1(lBytes) }))
-		add(w.known("C07-countdistinct-collation", strFam && clash, w.opCountDistinct1(lCls), func() *violation { return w.opCountDistinct1(lBytes) }))
+		add(w.known("C07-countdistinct-key", strFam && clash, w.opCountDistinct1(lCls), func() *violation { return w.opCountDistinct1(lBytes) }))
 	}
 	if lOK && rOK {
 		// pairs (l_i, r_i) with both parts non-NULL
@@ -498,7 +498,8 @@ func (w *world) checkAll() []*violation {
 			add(w.known("C07-distinct-collation", strFam && clash, w.opDistinct2(pCls), func() *violation { return w.opDistinct2(pBytes) }))
 		}
 		// COUNT(DISTINCT l, r): the defective mechanism is "distinct concatenations of
-		// text(l) , text(r) ," which subsumes both the collation and the separator finding
+		// text(l) , text(r) ," - blind to the collation, and a ',' inside a value collides.
+		// (Once repaired through the row hash, the NUL separator finding applies here too.)
 		concat := func(a, b elem) tri {
 			ka := strings.SplitN(w.lR[a.row], ":", 2)[1] + "," + strings.SplitN(w.rR[a.row], ":", 2)[1]
 			kb := strings.SplitN(w.lR[b.row], ":", 2)[1] + "," + strings.SplitN(w.rR[b.row], ":", 2)[1]
@@ -508,11 +509,10 @@ func (w *world) checkAll() []*violation {
 			return tF
 		}
 		pConcat, _ := classes(pp, concat)
-		v := w.opCountDistinct2(pCls)
-		v = w.known("C07-countdistinct-collation", strFam && clash, v, func() *violation { return w.opCountDistinct2(pBytes) })
-		v = w.known("C07-countdistinct-separator", hasComma && (!(strFam && clash) || w.listed("C07-countdistinct-collation")), v,
-			func() *violation { return w.opCountDistinct2(pConcat) })
-		add(v)
+		if !w.skipRegion("C07-rowhash-nul-separator", hasNUL) {
+			add(w.known("C07-countdistinct-key", (strFam && clash) || hasComma, w.opCountDistinct2(pCls),
+				func() *violation { return w.opCountDistinct2(pConcat) }))
+		}
 	}
 	// operators that relate l-values to r-values: '=' must be an equivalence on the union
 	// pool, and '=' on the unified column of (l UNION ALL r) must be the same relation
@@ -538,22 +538,9 @@ func (w *world) checkAll() []*violation {
 		uBytes, _ := classes(uPool, w.bytewise)
 		uKey, _ := classes(uPool, w.byKeyText)
 		numCross := w.c.L.fam == "num" && w.c.L.ddl != w.c.R.ddl && len(uKey) != len(uCls)
-		emptyL := false
-		for _, e := range lPool {
-			if r := w.reprOf(e); r == "string:" || r == "bytes:" {
-				emptyL = true
-			}
-		}
 		for _, op := range []string{"UNION", "INTERSECT", "INTERSECT ALL", "EXCEPT", "EXCEPT ALL"} {
-			if strings.HasPrefix(op, "EXCEPT") && w.skipRegion("C07-except-empty-string", emptyL) {
-				continue
-			}
-			id := "C07-setop-collation"
-			if op == "UNION" {
-				id = "C07-distinct-collation"
-			}
 			v := w.opSet(op, uCls)
-			v = w.known(id, strFam && clash, v, func() *violation { return w.opSet(op, uBytes) })
+			v = w.known("C07-distinct-collation", strFam && clash, v, func() *violation { return w.opSet(op, uBytes) })
 			v = w.known("C07-setop-decimal-scale", numCross, v, func() *violation { return w.opSet(op, uKey) })
 			add(v)
 		}
